@@ -81,8 +81,8 @@ D = datetime.date
 T = datetime.datetime
 KINDS = ('integer', 'float', 'date', 'timestamp', 'string')
 DOMAIN = {
-    'integer': [-3, 0, 1, 2, 9, 10],
-    'float': [-1.5, 0.0, 0.5, 1.0, 2.25, 1000.0],
+    'integer': [-2, -1, 0, 1, 9, 10],  # -2 / -1 (and -2.0 / -1.0) collide under python's hash()
+    'float': [-2.0, -1.0, 0.0, 0.5, 2.25, 1000.0],
     'date': [D(2019, 12, 31), D(2020, 1, 1), D(2020, 1, 2), D(2020, 2, 29), D(2020, 3, 1), D(2021, 1, 1)],
     'timestamp': [T(2019, 12, 31, 23, 59, 59), T(2020, 1, 1), T(2020, 1, 1, 0, 0, 1), T(2020, 1, 1, 12, 30, 0, 500000),
                   T(2020, 1, 2), T(2020, 6, 15, 8)],
@@ -381,7 +381,7 @@ def check_alias(ctx, env, semantic, spelling):
 # ---------------------------------------------------------------- refusal monitor
 def refusal_cases(kind):
     falsy = [i for i, v in enumerate(DOMAIN[kind]) if not v]
-    picks = sorted(set(falsy + [0, 2, 5]))
+    picks = sorted(set(falsy + [0, 1, 5]))
     cases = [(i, None) for i in picks] + [(None, i) for i in picks] + [(i, j) for i in picks for j in picks if i < j]
     reps = ['native'] + [r for r in REPRS[kind] if r in ('int-if-integral', 'float', 'decimal')]
     return [(rep, lo, up) for rep in reps for lo, up in cases]
